@@ -66,7 +66,7 @@ structure Case where
 
 def parseOps : Nat → List String → Option (List Op × List String)
   | 0, ts => some ([], ts)
-  | n + 1, "a" :: ts => do let (ops, rest) ← parseOps n ts; pure (.admit :: ops, rest)
+  | n + 1, "a" :: ts => do let (ops, rest) ← parseOps n ts; pure (.acquire :: ops, rest)
   | n + 1, "r" :: ts => do let (ops, rest) ← parseOps n ts; pure (.release :: ops, rest)
   | _, _ => none
 
